@@ -43,6 +43,8 @@ WITNESS_LAMBDA = r'^witness::(?:\w+::)*\$_\d+::operator\(\)\(char const\*, rtosc
 ALLOW_RAW = {
     "strlen": "libc string scan", "strcmp": "libc string compare", "strncmp": "libc string compare",
     "strchr": "libc string scan", "strrchr": "libc string scan", "strstr": "libc string scan",
+    "strcspn": "libc string scan", "strspn": "libc string scan", "strpbrk": "libc string scan", "strnlen": "libc string scan",
+    "memchr": "libc scan", "rawmemchr": "libc scan", "strchrnul": "libc string scan",
     "memcpy": "libc copy", "memmove": "libc copy", "memset": "libc fill", "memcmp": "libc compare",
     "strcpy": "libc copy", "strncpy": "libc copy",
     "atoi": "libc numeric parse (strtol; no heap, no lock)", "atof": "libc numeric parse (strtod; no heap, no lock)",
@@ -75,7 +77,43 @@ def indirect_ok(P, fn, inst):
                 "library-generated callbacks are analysed as roots")
     if inst.callee and re.search(re.escape(inst.callee) + r'\(%"struct\.rtosc::RtData"\*', inst.text):
         return "virtual call on RtData: resolves to the RtData:: default bodies, which are roots"
+    # a call through a function-pointer PARAMETER (a converter handed to an inline helper): resolved over every call site of
+    # the enclosing function in the program; accepted when each site passes the address of an allow-listed function
+    tg = _param_call_targets(P, fn, inst)
+    if tg and all(t in ALLOW_RAW for t in tg):
+        return "call through parameter: every call site of %s passes %s" % (P.dm(fn.name).split("(")[0], ", ".join(sorted(tg)))
     return None
+
+
+def _param_call_targets(P, fn, inst):
+    from ..rules import guard as _G
+    d = fn.defs().get(inst.callee) if inst.callee else None
+    if d is None or d.op != "load":
+        return None
+    slot = _G.parse_load(d)
+    k = None
+    for i in range(len(fn.params)):
+        try:
+            if _G.param_slot(fn, i) == slot:
+                k = i
+        except Exception:
+            continue
+    if k is None:
+        return None
+    # the slot is written only by the parameter spill
+    if sum(1 for s_ in fn.insts() if s_.op == "store" and _G.parse_store(s_)[1] == slot) != 1:
+        return None
+    targets = set()
+    sites = 0
+    for m in P.modules:
+        for g in m.functions.values():
+            for c in g.calls():
+                if not c.indirect and c.callee == fn.name:
+                    sites += 1
+                    if k >= len(c.args) or not c.args[k].startswith("@"):
+                        return None
+                    targets.add(c.args[k].lstrip("@"))
+    return targets if sites else None
 
 
 def make_analysis(P):
